@@ -224,15 +224,6 @@ func (m *Model) Live() []*PlanModel {
 	return out
 }
 
-// Rows sums the expected sqlite rows of all live plans.
-func (m *Model) Rows() RowCounts {
-	var r RowCounts
-	for _, pm := range m.Live() {
-		r = r.Add(RowsOf(pm.Spec))
-	}
-	return r
-}
-
 // Update describes the state written by one Update* call.
 type Update struct {
 	State StateSpec
